@@ -1,5 +1,347 @@
-//! C16 - monitor not written yet.
+//! C16 - pbulk-index output splits into one record per PKGNAME, fields never
+//! leaking.
+//!
+//! Refuting events: `ScanIndex::from_reader` returns a list whose length,
+//! order or any field differs from the by-construction model; returns `Ok`
+//! (or a partial list) although a block lacks PKGNAME, an `ALL_DEPENDS` item
+//! or `PKG_LOCATION` is invalid, or the reader failed; returns `Err` on a
+//! fault-free input.
 
-use crate::fw::Cx;
+use crate::fw::{show, CaseResult, Cx, Ev, Tier};
+use crate::gen::scan::{self as gs, Class, Doc, FaultReader};
+use crate::oracle::scan::{self as os, ExpRec, SCALARS};
+use crate::rng::hash_bytes;
+use pkgsrc::{Depend, PkgName, PkgPath, ScanIndex};
 
-pub fn run(_cx: &mut Cx) {}
+fn scalars_of(g: &ScanIndex) -> [&Option<String>; 10] {
+    [
+        &g.pkg_skip_reason,
+        &g.pkg_fail_reason,
+        &g.no_bin_on_ftp,
+        &g.restricted,
+        &g.categories,
+        &g.maintainer,
+        &g.use_destdir,
+        &g.bootstrap_pkg,
+        &g.usergroup_phase,
+        &g.pbulk_weight,
+    ]
+}
+
+/// Compare one observed record with the model; every field counts as one
+/// oracle comparison.
+fn compare_record(ev: &mut Ev, i: usize, g: &ScanIndex, e: &ExpRec) -> Result<(), String> {
+    ev.evals(15);
+    if g.pkgname.pkgname() != e.pkgname {
+        return Err(format!(
+            "record {i}: pkgname is {:?}, the {i}-th PKGNAME= line says {:?}",
+            g.pkgname.pkgname(),
+            e.pkgname
+        ));
+    }
+    if g.pkgname != PkgName::new(&e.pkgname) {
+        return Err(format!("record {i}: pkgname {:?} != PkgName::new({:?})", g.pkgname, e.pkgname));
+    }
+    for (k, got) in scalars_of(g).iter().enumerate() {
+        if **got != e.scalars[k] {
+            return Err(format!(
+                "record {i} ({}): field {} is {:?}, expected {:?}",
+                e.pkgname, SCALARS[k], got, e.scalars[k]
+            ));
+        }
+    }
+    match (&g.pkg_location, &e.location) {
+        (None, None) => {}
+        (Some(got), Some(v)) => match PkgPath::new(v) {
+            Ok(want) => {
+                if *got != want {
+                    return Err(format!(
+                        "record {i} ({}): pkg_location is {got:?}, expected PkgPath::new({v:?})",
+                        e.pkgname
+                    ));
+                }
+            }
+            Err(_) => {
+                return Err(format!(
+                    "record {i}: PkgPath::new({v:?}) failed for a location the generator made valid"
+                ))
+            }
+        },
+        (got, want) => {
+            return Err(format!(
+                "record {i} ({}): pkg_location is {got:?}, expected from {want:?}",
+                e.pkgname
+            ))
+        }
+    }
+    if g.all_depends.len() != e.all_depends.len() {
+        return Err(format!(
+            "record {i} ({}): all_depends has {} items, its ALL_DEPENDS line has {}: {:?}",
+            e.pkgname,
+            g.all_depends.len(),
+            e.all_depends.len(),
+            e.all_depends
+        ));
+    }
+    for (j, item) in e.all_depends.iter().enumerate() {
+        match Depend::new(item) {
+            Ok(want) => {
+                if g.all_depends[j] != want {
+                    return Err(format!(
+                        "record {i} ({}): all_depends[{j}] is {:?}, expected Depend::new({item:?})",
+                        e.pkgname, g.all_depends[j]
+                    ));
+                }
+            }
+            Err(_) => {
+                return Err(format!(
+                    "record {i}: Depend::new({item:?}) failed for an item the generator made valid"
+                ))
+            }
+        }
+    }
+    let got_scan: Vec<&std::ffi::OsStr> = g.scan_depends.iter().map(|p| p.as_os_str()).collect();
+    let want_scan: Vec<&std::ffi::OsStr> =
+        e.scan_depends.iter().map(|s| std::ffi::OsStr::new(s.as_str())).collect();
+    if got_scan != want_scan {
+        return Err(format!(
+            "record {i} ({}): scan_depends is {got_scan:?}, expected {want_scan:?}",
+            e.pkgname
+        ));
+    }
+    if g.multi_version != e.multi_version {
+        return Err(format!(
+            "record {i} ({}): multi_version is {:?}, expected {:?}",
+            e.pkgname, g.multi_version, e.multi_version
+        ));
+    }
+    Ok(())
+}
+
+fn compare_list(ev: &mut Ev, got: &[ScanIndex], want: &[ExpRec]) -> Result<(), String> {
+    ev.eval();
+    if got.len() != want.len() {
+        let names: Vec<&str> = got.iter().map(|g| g.pkgname.pkgname()).collect();
+        return Err(format!(
+            "{} records returned for {} PKGNAME= lines (returned names: {:?})",
+            got.len(),
+            want.len(),
+            names
+        ));
+    }
+    for (i, (g, e)) in got.iter().zip(want).enumerate() {
+        compare_record(ev, i, g, e)?;
+    }
+    Ok(())
+}
+
+fn judge(
+    ev: &mut Ev,
+    doc: &Doc,
+    got: std::io::Result<Vec<ScanIndex>>,
+    how: &str,
+) -> CaseResult {
+    let want = os::model(&doc.sems);
+    match (doc.class, want, got) {
+        (Class::Utf8, Ok(want), got) => {
+            // Either the read fails as a whole, or the undecodable ignored
+            // line is skipped; never a partial or shifted list.
+            match got {
+                Err(_) => {
+                    ev.eval();
+                    ev.count("outcome/utf8/err");
+                    Ok(())
+                }
+                Ok(list) => {
+                    ev.count("outcome/utf8/ok");
+                    compare_list(ev, &list, &want).map_err(|m| format!("[{how}] {m}").into())
+                }
+            }
+        }
+        (_, Ok(want), Ok(list)) => {
+            ev.count("outcome/ok");
+            compare_list(ev, &list, &want).map_err(|m| format!("[{how}] {m}").into())
+        }
+        (_, Ok(want), Err(e)) => Err(format!(
+            "[{how}] read failed ({:?}) on a fault-free input of {} records",
+            e.kind(),
+            want.len()
+        )
+        .into()),
+        (_, Err(f), Err(_)) => {
+            ev.eval();
+            ev.count(&format!("outcome/err/{}", f.name()));
+            Ok(())
+        }
+        (_, Err(f), Ok(list)) => Err(format!(
+            "[{how}] read returned Ok with {} records although the input has fault {} at {}",
+            list.len(),
+            f.name(),
+            doc.fault_pos
+        )
+        .into()),
+    }
+}
+
+fn note_doc(ev: &mut Ev, doc: &Doc) {
+    ev.add("records", doc.records as u64);
+    ev.add("leak_probes", doc.leak_probes as u64);
+    ev.add("repeated_scalar_keys", doc.repeated_keys as u64);
+    ev.add("ignored_lines", doc.ignored_lines as u64);
+    ev.add("duplicate_pkgname_lines", doc.dup_pkgname as u64);
+    ev.count(&format!("docs/records/{}", doc.records.min(8)));
+}
+
+pub fn run(cx: &mut Cx) {
+    cx.default_budget();
+    for k in [
+        "class/clean",
+        "class/missing_pkgname",
+        "class/bad_depend",
+        "class/bad_location",
+        "class/invalid_utf8",
+        "class/io_error/err",
+        "class/io_error/beyond",
+        "leak_probes",
+        "repeated_scalar_keys",
+        "ignored_lines",
+        "duplicate_pkgname_lines",
+        "outcome/err/missing_pkgname",
+        "outcome/err/bad_depend",
+        "outcome/err/bad_location",
+    ] {
+        cx.ev.require(k);
+    }
+    let mini = cx.tier == Tier::Mini;
+
+    // (a) fault-free documents: slice reader and a chunked reader.
+    let n = cx.per_shard(48, 3_000, 48_000, 480_000);
+    let mut r = cx.stream("clean");
+    for _ in 0..n {
+        let doc = gs::doc(&mut r, Class::Clean, mini);
+        let bufsize = r.range(1, 16);
+        let chunked = r.chance(1, 2);
+        cx.check(
+            || format!("clean document, {} records: {}", doc.records, show(&doc.bytes)),
+            |ev| {
+                ev.count("class/clean");
+                note_doc(ev, &doc);
+                let got = ScanIndex::from_reader(&doc.bytes[..]);
+                judge(ev, &doc, got, "slice reader")?;
+                if chunked {
+                    ev.count("reader/chunked");
+                    let rd = FaultReader::new(&doc.bytes, bufsize, 0);
+                    let got = ScanIndex::from_reader(rd);
+                    judge(ev, &doc, got, &format!("{bufsize}-byte window reader"))?;
+                }
+                if doc.records >= 2 {
+                    ev.nontrivial(hash_bytes(&doc.bytes));
+                }
+                Ok(())
+            },
+        );
+    }
+
+    // (b) one content fault per document.
+    let n = cx.per_shard(48, 1_500, 24_000, 240_000);
+    let mut r = cx.stream("faults");
+    let classes = [Class::MissingPkgname, Class::BadDepend, Class::BadLocation, Class::Utf8];
+    for i in 0..n {
+        let class = classes[(i % 4) as usize];
+        let doc = gs::doc(&mut r, class, mini);
+        cx.check(
+            || {
+                format!(
+                    "document with fault {} at {}: {}",
+                    class.name(),
+                    doc.fault_pos,
+                    show(&doc.bytes)
+                )
+            },
+            |ev| {
+                ev.count(&format!("class/{}", class.name()));
+                ev.count(&format!("fault/{}/{}", class.name(), doc.fault_pos));
+                let got = ScanIndex::from_reader(&doc.bytes[..]);
+                judge(ev, &doc, got, "slice reader")?;
+                ev.nontrivial(hash_bytes(&doc.bytes));
+                Ok(())
+            },
+        );
+    }
+
+    // (c) I/O errors: a hard error at the k-th refill, for every k.
+    let ndocs = cx.per_shard(8, 32, 480, 4_800);
+    let mut r = cx.stream("io-faults");
+    for _ in 0..ndocs {
+        let doc = gs::doc(&mut r, Class::Clean, true);
+        let sizes: Vec<usize> = if mini {
+            vec![16]
+        } else {
+            vec![r.range(1, 4), r.range(5, 16)]
+        };
+        for bufsize in sizes {
+            let need = os::fills_needed(doc.bytes.len(), bufsize);
+            // every k within the input (incl. the refill that would report
+            // end of input) and two beyond it
+            for k in 1..=need + 2 {
+                let within = k <= need;
+                cx.check(
+                    || {
+                        format!(
+                            "I/O error at refill {k} of {need} with a {bufsize}-byte window: {}",
+                            show(&doc.bytes)
+                        )
+                    },
+                    |ev| {
+                        let mut rd = FaultReader::new(&doc.bytes, bufsize, k);
+                        let got = ScanIndex::from_reader(&mut rd);
+                        if within {
+                            ev.count("class/io_error/err");
+                            ev.count(&format!(
+                                "io_fault/position/{}",
+                                if k == 1 {
+                                    "first"
+                                } else if k == need {
+                                    "eof"
+                                } else {
+                                    "inside"
+                                }
+                            ));
+                            ev.eval();
+                            if !rd.fired {
+                                return Err(format!(
+                                    "the reader was abandoned after {} of {need} refills; result {}",
+                                    rd.refills,
+                                    if got.is_ok() { "Ok" } else { "Err" }
+                                )
+                                .into());
+                            }
+                            if let Ok(list) = got {
+                                return Err(format!(
+                                    "reader reported an I/O error at refill {k} of {need} but the read returned Ok with {} records (fault-free input has {})",
+                                    list.len(),
+                                    doc.records
+                                )
+                                .into());
+                            }
+                            ev.nontrivial(hash_bytes(&doc.bytes) ^ ((k as u64) << 8) ^ bufsize as u64);
+                            Ok(())
+                        } else {
+                            // A reader may be polled again after it signalled
+                            // end of input (a last line without '\n'); an
+                            // error it reports then may fail the read, but
+                            // nothing else may.
+                            ev.count("class/io_error/beyond");
+                            if rd.fired && got.is_err() {
+                                ev.eval();
+                                ev.count("io_fault/reported_after_eof");
+                                return Ok(());
+                            }
+                            judge(ev, &doc, got, "error scheduled after end of input")
+                        }
+                    },
+                );
+            }
+        }
+    }
+}
